@@ -373,6 +373,60 @@ def check_weights(rep, prog):
     okw = 'result = (1 - np.sum(ppos_l)) * pdf_fs' in t and 'ppos_l, gammapos_l = (params[-2 * Npos::2], params[-2 * Npos + 1::2])' in t and 'for ppos, gammapos in zip(ppos_l, gammapos_l)' in t
     rep.ob('R-ALG', 'Cache1D.integrate_point_pos weights', okw, 'continuous part weighted by 1 - sum(ppos); point masses (ppos_k, gammapos_k) read in pairs', prog.mod(C1).rel, c1.lineno,
            what='(1 - sum ppos) + sum ppos == 1, pairs read as (ppos, gammapos)')
+    check_point_lookup(rep, prog, c1)
+
+
+_EQ_LOOKUPS = (r"list\(self\.gammas\)\.index\((\w+)\)", r"self\.gammas\.tolist\(\)\.index\((\w+)\)", r"(?:np|numpy)\.where\(self\.gammas == (\w+)\)\[0\]\[0\]",
+               r"(?:np|numpy)\.flatnonzero\(self\.gammas == (\w+)\)\[0\]", r"(?:np|numpy)\.nonzero\(self\.gammas == (\w+)\)\[0\]\[0\]",
+               r"(?:np|numpy)\.argmax\(self\.gammas == (\w+)\)", r"int\((?:np|numpy)\.argmax\(self\.gammas == (\w+)\)\)")
+_ORDER_SEARCH = ('searchsorted', 'bisect', 'bisect_left', 'bisect_right', 'digitize')
+
+
+def check_point_lookup(rep, prog, c1):
+    """R-LOOKUP: self.gammas is the negative grid followed by additional_gammas in the user's order (np.concatenate in __init__) and
+    by uncached point masses in call order (np.append in integrate_point_pos): it is not sorted, so the row of self.spectra that
+    belongs to a point mass must be found by equality with the requested value, never by an order-based search"""
+    rel = prog.mod(C1).rel
+    cls = [n for n in prog.mod(C1).tree.body if isinstance(n, ast.ClassDef) and n.name == 'Cache1D']
+    appended = any(isinstance(n, ast.Assign) and ast.unparse(n.targets[0]) == 'self.gammas' and isinstance(n.value, ast.Call) and
+                   ast.unparse(n.value.func).split('.')[-1] in ('append', 'concatenate', 'hstack', 'r_') for c_ in cls for n in ast.walk(c_))
+    sing = {}
+    for n in own_nodes(c1):
+        if isinstance(n, ast.Assign) and len(n.targets) == 1 and isinstance(n.targets[0], ast.Name):
+            sing.setdefault(n.targets[0].id, []).append(n.value)
+    # the loop variable that carries the requested gamma
+    loops = [n for n in own_nodes(c1) if isinstance(n, ast.For) and 'gammapos_l' in ast.unparse(n.iter)]
+    gname = None
+    if len(loops) == 1 and isinstance(loops[0].target, ast.Tuple) and len(loops[0].target.elts) == 2 and isinstance(loops[0].target.elts[1], ast.Name):
+        gname = loops[0].target.elts[1].id
+    reads = [n for n in own_nodes(c1) if isinstance(n, ast.Subscript) and ast.unparse(n.value) == 'self.spectra' and isinstance(n.ctx, ast.Load)]
+    bad = [ast.unparse(c)[:80] for c in own_nodes(c1) if isinstance(c, ast.Call) and ast.unparse(c.func).split('.')[-1] in _ORDER_SEARCH and 'gammas' in ast.unparse(c)]
+    if bad and appended:
+        rep.ob('R-LOOKUP', 'Cache1D.integrate_point_pos row of the point mass', False,
+               'order-based search `%s` on self.gammas, which is extended in user / call order (concatenate in __init__, append here) and is not sorted: '
+               'the spectrum of another selection coefficient is returned' % bad[0], rel, c1.lineno,
+               what='the cached spectrum of a point mass is selected by equality with the requested gamma')
+        return
+    ok, det = False, 'the read of self.spectra for the point mass was not found'
+    if gname and len(reads) == 1:
+        ix = reads[0].slice
+        if isinstance(ix, ast.Name) and len(sing.get(ix.id, [])) == 1:
+            ix = sing[ix.id][0]
+        t = ast.unparse(ix)
+        for rx in _EQ_LOOKUPS:
+            mt = re.fullmatch(rx, t)
+            if mt:
+                ok = mt.group(1) == gname
+                det = 'row %s' % t + ('' if ok else ': looked up with `%s`, not the requested gamma `%s`' % (mt.group(1), gname))
+                break
+        else:
+            if re.fullmatch(r"self\.gammas == (\w+)", t):
+                ok = re.fullmatch(r"self\.gammas == (\w+)", t).group(1) == gname
+                det = 'row mask %s' % t
+            else:
+                det = 'lookup `%s` not recognised' % t[:80]
+    rep.ob('R-LOOKUP', 'Cache1D.integrate_point_pos row of the point mass', ok, det, rel, c1.lineno,
+           what='the cached spectrum of a point mass is selected by equality with the requested gamma')
 
 
 def exterior_terms(prog, symmetric):
